@@ -167,7 +167,15 @@ def _inline_returned_helpers(model: Model, fi: FuncInfo, body: List[ast.stmt]) -
                     out.extend(rep)
                     changed = True
                     continue
-            if isinstance(st, (ast.If, ast.For, ast.While, ast.With, ast.Try)) and any(isinstance(x, ast.Return) and isinstance(x.value, ast.Call) for x in ast.walk(st)):
+            if isinstance(st, ast.Expr) and isinstance(st.value, ast.Call):
+                # a statement that calls a private single-use *procedure* (no return in it): its statements, here
+                pseudo = ast.copy_location(ast.Return(value=st.value), st)
+                rep = _tail_helper_body(model, fi, [pseudo], all_names, procedure=True)
+                if rep is not None:
+                    out.extend(rep)
+                    changed = True
+                    continue
+            if isinstance(st, (ast.If, ast.For, ast.While, ast.With, ast.Try)) and any((isinstance(x, ast.Return) and isinstance(x.value, ast.Call)) or (isinstance(x, ast.Expr) and isinstance(x.value, ast.Call)) for x in ast.walk(st)):
                 st2 = copy.copy(st)
                 for fld in ("body", "orelse", "finalbody"):
                     if isinstance(getattr(st2, fld, None), list):
@@ -188,7 +196,7 @@ def _inline_returned_helpers(model: Model, fi: FuncInfo, body: List[ast.stmt]) -
     return new, changed
 
 
-def _tail_helper_body(model: Model, fi: FuncInfo, body: List[ast.stmt], caller_names=None) -> Optional[List[ast.stmt]]:
+def _tail_helper_body(model: Model, fi: FuncInfo, body: List[ast.stmt], caller_names=None, procedure: bool = False) -> Optional[List[ast.stmt]]:
     """`...; return self._h(a, b)` where _h is a private helper called from nowhere else and a, b are locals: the
     statements of _h with its parameters renamed to a, b (its other locals get a suffix when they would collide)."""
     from .lib import call_sites_of
@@ -202,14 +210,17 @@ def _tail_helper_body(model: Model, fi: FuncInfo, body: List[ast.stmt], caller_n
     if got is None:
         return None
     h, skip = got
-    if h is fi or isinstance(h.node, ast.Lambda) or not h.name.startswith("_") or h.name.startswith("__") or h.node.decorator_list:
+    if h is fi or isinstance(h.node, ast.Lambda) or not h.name.startswith("_") or h.name.startswith("__") or any(ast.unparse(d) != "staticmethod" for d in h.node.decorator_list):
         return None
     if len(call_sites_of(model, h)) != 1 or len(h.pos_params) - skip != len(call.args):
         return None
     a = h.node.args
     if a.vararg or a.kwarg or a.kwonlyargs or a.defaults or a.posonlyargs:
         return None
-    if any(isinstance(x, (ast.FunctionDef, ast.AsyncFunctionDef, ast.ClassDef, ast.Lambda, ast.Global, ast.Nonlocal, ast.Yield, ast.YieldFrom)) for st in h.node.body for x in ast.walk(st)):
+    if any(isinstance(x, (ast.AsyncFunctionDef, ast.ClassDef, ast.Global, ast.Nonlocal, ast.Yield, ast.YieldFrom)) for st in h.node.body for x in ast.walk(st)):
+        return None
+    nested = [x for st in h.node.body for x in ast.walk(st) if isinstance(x, (ast.FunctionDef, ast.Lambda))]
+    if procedure and any(isinstance(x, ast.Return) for st in h.node.body for x in ast.walk(st)):
         return None
     ren: Dict[str, str] = {}
     if skip:
@@ -236,6 +247,12 @@ def _tail_helper_body(model: Model, fi: FuncInfo, body: List[ast.stmt], caller_n
     for loc in stores:
         if loc in caller_names and loc not in ren:
             ren[loc] = loc + "_h"
+
+    # nested functions / lambdas of the helper move along unchanged: they must not mention anything that is renamed
+    for nf in nested:
+        inner = {x.id for x in ast.walk(nf) if isinstance(x, ast.Name)} | {a.arg for a in ast.walk(nf) if isinstance(a, ast.arg)}
+        if inner & set(ren):
+            return None
 
     class _R(ast.NodeTransformer):
         def visit_Name(self, n: ast.Name):
